@@ -133,22 +133,22 @@ static inline int inc_decrypt_packet(typename A::state_t *s, const Bytes &ad, co
 }
 template <class A>
 static inline Bytes inc_encrypt(const Bytes &key, const Bytes &nonce, const Bytes &ad, const Bytes &pt, const std::vector<uint64_t> &chunks, bool inplace) {
-    typename A::state_t *s = (typename A::state_t *)malloc(sizeof(typename A::state_t));
+    typename A::state_t *s = (typename A::state_t *)vh::xalloc(sizeof(typename A::state_t));
     Buf k(key), n(nonce);
     A::init(s, n.p, k.p);
     Bytes out = inc_encrypt_packet<A>(s, ad, pt, chunks, inplace);
     A::free_(s);
-    free(s);
+    vh::xfree(s, sizeof(typename A::state_t));
     return out;
 }
 template <class A>
 static inline int inc_decrypt(const Bytes &key, const Bytes &nonce, const Bytes &ad, const Bytes &ct, const std::vector<uint64_t> &chunks, bool inplace, Bytes &pt) {
-    typename A::state_t *s = (typename A::state_t *)malloc(sizeof(typename A::state_t));
+    typename A::state_t *s = (typename A::state_t *)vh::xalloc(sizeof(typename A::state_t));
     Buf k(key), n(nonce);
     A::init(s, n.p, k.p);
     int rc = inc_decrypt_packet<A>(s, ad, ct, chunks, inplace, pt);
     A::free_(s);
-    free(s);
+    vh::xfree(s, sizeof(typename A::state_t));
     return rc;
 }
 static inline Bytes inc_encrypt_alg(int alg, const Bytes &key, const Bytes &nonce, const Bytes &ad, const Bytes &pt, const std::vector<uint64_t> &chunks, bool inplace) {
@@ -211,8 +211,8 @@ static inline DecResult masked_decrypt(int alg, const Bytes &key, const Bytes &n
 struct IsapKey {
     int alg;
     union { ascon128a_isap_aead_key_t a; ascon128_isap_aead_key_t b; ascon80pq_isap_aead_key_t c; } *u;
-    explicit IsapKey(int alg_) : alg(alg_) { u = (decltype(u))malloc(sizeof(*u)); memset(u, 0xA5, sizeof(*u)); }
-    ~IsapKey() { free(u); }
+    explicit IsapKey(int alg_) : alg(alg_) { u = (decltype(u))vh::xalloc(sizeof(*u)); memset(u, 0xA5, sizeof(*u)); }
+    ~IsapKey() { vh::xfree(u, sizeof(*u)); }
     IsapKey(const IsapKey &) = delete;
     void init(const Bytes &key) { Buf k(key); if (alg == 0) ascon128a_isap_aead_init(&u->a, k.p); else if (alg == 1) ascon128_isap_aead_init(&u->b, k.p); else ascon80pq_isap_aead_init(&u->c, k.p); }
     void load(const Bytes &saved) { Buf k(saved); if (alg == 0) ascon128a_isap_aead_load_key(&u->a, k.p); else if (alg == 1) ascon128_isap_aead_load_key(&u->b, k.p); else ascon80pq_isap_aead_load_key(&u->c, k.p); }
